@@ -678,6 +678,39 @@ func (r *vsRun) stepView() {
 		}
 		v.opened = true
 		v.queries = []string{"sport:80", "cdata:aa", "cbytes:1: sort:id"}
+		if r.cfg.focus == "C10" {
+			// the view's answers about tags belong to the snapshot as well (tag filters, both polarities of marks)
+			var defs map[string]string
+			_ = r.e.inLoop(func() {
+				defs = map[string]string{}
+				for n, t := range r.e.mgr.tags {
+					defs[n] = t.definition
+				}
+			})
+			names := make([]string, 0, len(defs))
+			for n := range defs {
+				names = append(names, n)
+			}
+			sort.Strings(names)
+			for _, n := range names {
+				q, err := query.Parse(defs[n])
+				if err != nil {
+					continue
+				}
+				f := q.Conditions.Features()
+				if r.open["F-C06-inlined-tag-reference-time"] && (f.MainFeatures|f.SubQueryFeatures)&(query.FeatureFilterTimeAbsolute|query.FeatureFilterTimeRelative) != 0 {
+					continue // a pending tag with a time filter is evaluated against the searching query's clock (open finding)
+				}
+				if len(f.MainTags)+len(f.SubQueryTags) != 0 || f.SubQueryFeatures != 0 {
+					continue // keep to tags that are answered from their own bits or definition
+				}
+				typ, sub, _ := strings.Cut(n, "/")
+				v.queries = append(v.queries, typ+":"+sub+" sort:id")
+				if typ == "mark" {
+					v.queries = append(v.queries, "-"+typ+":"+sub+" sort:id")
+				}
+			}
+		}
 		v.mergesAtOpen, v.importsAtOpen = r.mergesDone, r.importsDone
 		v.usedAfterMerge, v.usedAfterImport = false, false
 		ans, err := veUseView(&v.v, v.queries)
@@ -1319,32 +1352,38 @@ func (r *vsRun) finalChecks() {
 	}
 	_ = r.e.inLoop(func() {})
 	if r.cfg.focus == "C13" {
-		var served []string
-		var locks, count uint
-		_ = r.e.inLoop(func() {
-			for _, i := range r.e.mgr.indexes {
-				served = append(served, filepath.Base(i.Filename()))
-			}
-			for _, n := range r.e.mgr.usedIndexes {
-				locks += n
-			}
-			count = uint(len(r.e.mgr.indexes))
-		})
-		sort.Strings(served)
-		var onDisk []string
-		ents, _ := os.ReadDir(r.e.dirs.index)
-		for _, en := range ents {
-			if strings.HasSuffix(en.Name(), ".idx") {
-				onDisk = append(onDisk, en.Name())
-			}
+		r.checkFilesAndLocks()
+	}
+}
+
+// checkFilesAndLocks is the quiescence clause of C13 (call with all views released and nothing parked): the index
+// directory holds exactly the files the service serves from and every served file is held exactly once.
+func (r *vsRun) checkFilesAndLocks() {
+	var served []string
+	var locks, count uint
+	_ = r.e.inLoop(func() {
+		for _, i := range r.e.mgr.indexes {
+			served = append(served, filepath.Base(i.Filename()))
 		}
-		sort.Strings(onDisk)
-		if fmt.Sprint(served) != fmt.Sprint(onDisk) {
-			r.fatalf("at quiescence with all views released the index directory holds %v but the service serves %v", onDisk, served)
+		for _, n := range r.e.mgr.usedIndexes {
+			locks += n
 		}
-		if locks != count {
-			r.fatalf("at quiescence with all views released %d index files are served but the use counts add up to %d", count, locks)
+		count = uint(len(r.e.mgr.indexes))
+	})
+	sort.Strings(served)
+	var onDisk []string
+	ents, _ := os.ReadDir(r.e.dirs.index)
+	for _, en := range ents {
+		if strings.HasSuffix(en.Name(), ".idx") {
+			onDisk = append(onDisk, en.Name())
 		}
+	}
+	sort.Strings(onDisk)
+	if fmt.Sprint(served) != fmt.Sprint(onDisk) {
+		r.fatalf("at quiescence with all views released the index directory holds %v but the service serves %v", onDisk, served)
+	}
+	if locks != count {
+		r.fatalf("at quiescence with all views released %d index files are served but the use counts add up to %d", count, locks)
 	}
 }
 
